@@ -37,13 +37,15 @@ type Engine struct {
 	monitors      []*Monitor
 	droppedCand   map[string]map[string]bool
 	mutableGlobal map[*ssa.Global]bool
-	immutableG    map[string]bool
+	initStored    map[*ssa.Global]bool
 	funcs         map[string]*ssa.Function
 	workDir       string
 	timeoutMs     int
 	thorough      bool
 	mu            sync.Mutex
 	repoDir       string
+	debug         string
+	seed          int
 }
 
 func loadEngine(repoDir string, pkgPaths []string) (*Engine, error) {
@@ -120,6 +122,18 @@ func (e *Engine) isRepoType(t types.Type) bool {
 	return false
 }
 
+func (e *Engine) lookupType(pkgPath, name string) types.Type {
+	var found types.Type
+	packages.Visit(e.pkgs, nil, func(p *packages.Package) {
+		if p.PkgPath == pkgPath && p.Types != nil && found == nil {
+			if tn, ok := p.Types.Scope().Lookup(name).(*types.TypeName); ok {
+				found = tn.Type()
+			}
+		}
+	})
+	return found
+}
+
 func (e *Engine) pkgByName(name string) *types.Package {
 	var found *types.Package
 	packages.Visit(e.pkgs, nil, func(p *packages.Package) {
@@ -163,8 +177,18 @@ func (e *Engine) findMutableGlobals() {
 		}
 		return nil
 	}
+	e.initStored = map[*ssa.Global]bool{}
 	for _, fn := range e.funcs {
 		if fn.Name() == "init" || strings.HasPrefix(fn.Name(), "init#") {
+			for _, b := range fn.Blocks {
+				for _, ins := range b.Instrs {
+					if t, ok := ins.(*ssa.Store); ok {
+						if g, ok := t.Addr.(*ssa.Global); ok {
+							e.initStored[g] = true
+						}
+					}
+				}
+			}
 			continue
 		}
 		for _, b := range fn.Blocks {
@@ -199,9 +223,7 @@ func isSyncType(t types.Type) (string, bool) {
 	return "", false
 }
 
-func (e *Engine) immutableHeap(name string) bool {
-	return strings.HasPrefix(name, "G$") && e.immutableG[name]
-}
+func (e *Engine) immutableHeap(name string) bool { return false }
 
 // tagID: deterministic id for a type / function key.
 func tagID(k string) int {
@@ -229,7 +251,7 @@ func (e *Engine) newFnCtx(fn *ssa.Function, discovery bool, prev *FnCtx) *FnCtx 
 	fc := &FnCtx{eng: e, fn: fn, con: e.contracts[fn.String()], sc: newScript(), sorts: map[string]string{}, oblNames: map[string]int{},
 		discovery: discovery, loopWrites: map[*ssa.BasicBlock]map[string]bool{}, loopCellW: map[*ssa.BasicBlock]map[int]bool{}, loopHavocAll: map[*ssa.BasicBlock]bool{},
 		cellOf: map[string]int{}, cellSeq: map[string]int{}, cellType: map[int]types.Type{}, assumptions: map[string]bool{}, inlined: map[string]bool{}, usedContracts: map[string]bool{},
-		tagTypes: map[int]types.Type{}, writtenNames: map[string]bool{}, nonNil: map[string]bool{}}
+		tagTypes: map[int]types.Type{}, poolVals: map[string]bool{}, immut: map[string]bool{}, writtenNames: map[string]bool{}, nonNil: map[string]bool{}}
 	if fc.con != nil {
 		fc.props = fc.con.Props
 	}
@@ -304,6 +326,7 @@ func (e *Engine) runFn(fn *ssa.Function) (res *FnResult) {
 		fc, err = run(false, prev)
 		if err != "" {
 			res.Err = err
+			fc = nil
 			break
 		}
 		e.solve(fc)
@@ -355,9 +378,11 @@ type solverSpec struct {
 	pre  func(timeoutMs int) string
 }
 
+var solverSeed = 0
+
 var solvers = []solverSpec{
 	{"z3-5.1.0", func(f string, ms int) []string { return []string{"z3-new", "-smt2", f} }, func(ms int) string {
-		return fmt.Sprintf("(set-option :timeout %d)\n(set-option :smt.random_seed 0)\n", ms)
+		return fmt.Sprintf("(set-option :timeout %d)\n(set-option :smt.random_seed %d)\n", ms, solverSeed)
 	}},
 	{"cvc5-1.0", func(f string, ms int) []string {
 		return []string{"cvc5", "--incremental", "--tlimit-per=" + strconv.Itoa(ms), "--strings-exp", f}
@@ -472,7 +497,15 @@ func (e *Engine) solve(fc *FnCtx) {
 			if si == 0 || first == "sat" {
 				s2 = strings.Replace(single, "(check-sat)\n", "(check-sat)\n(get-model)\n", 1)
 			}
-			out, _ := e.runSolver(sv, s2, tag+"_1", time.Duration(e.timeoutMs+5000)*time.Millisecond)
+			tg := tag + "_1"
+			if e.debug != "" && strings.Contains(o.Name, e.debug) {
+				tg = fmt.Sprintf("%s_dbg%d_%s", tag, tagID(o.Name), sv.name)
+				fmt.Printf("debug: %s -> %s/%s.smt2\n", o.Name, e.workDir, tg)
+			}
+			out, _ := e.runSolver(sv, s2, tg, time.Duration(e.timeoutMs+5000)*time.Millisecond)
+			if e.debug != "" && strings.Contains(o.Name, e.debug) {
+				os.WriteFile(e.workDir+"/"+tg+".out", []byte(out), 0o644)
+			}
 			r := parseResults(out, 1)[0]
 			if o.Cover {
 				if r == "sat" {
